@@ -139,6 +139,17 @@ ADD4 = {
 }
 for _k, _v in ADD4.items():
     CLAIMS[_k]["text"] = CLAIMS[_k]["text"] + " Round 11: " + _v
+ADD5 = {
+ "C02": "Keyframes that define every animated property are, every other time, captured with the derived keyframe_from instead of setter by setter.",
+ "C07": "One animator history in five ends past the end with a negative step (rejected by a panic) followed by another step.",
+ "C12": "Negative finite evaluation times on merges. Not exercised: NaN / infinite evaluation times (the model is not validated there; seeded change S12-C12 is recorded as missed).",
+ "C17": "Compiled shape N5 whose field names are names of locals in the generated code (normalized_time, time, index); exact keyframe hits on the derive-only shapes are also judged under C17.",
+ "C18": "Not exercised: the life cycle of Bevy entities (animated component removed or inserted late) — seeded change S12-C18 is recorded as missed.",
+ "C19": "Not exercised: entities despawned and their index reused — seeded change S12-C19 is recorded as missed.",
+ "C20": "A user-made cubic Bézier easing at the smallest positive times and within two ulps of every phase boundary (no panic, finite).",
+}
+for _k, _v in ADD5.items():
+    CLAIMS[_k]["text"] = CLAIMS[_k]["text"] + " Round 12: " + _v
 
 
 def main():
